@@ -26,6 +26,34 @@ CLAIMED = {
 NOT_YET = {
 }
 
+
+CLAIMED.update({
+    "C09": ("pratt", "bounded exhaustive enumeration of operator tables x token strings; every case evaluated by a textbook binding-power reference and replayed on the implementation in three table forms",
+            "Every operator table of up to 3 operators (prefix, postfix, left and right infix; 2-3 symbols, 2-3 power levels, same symbol allowed as prefix and infix, declaration order significant) on every token string over {x, ?, operators} up to the length bound: acceptance, the fully parenthesised tree, the span seen by every fold callback and the unconsumed rest equal the binding-power reference's; flattening the tree gives the consumed tokens in order; Vec<boxed op>, statically typed tuple and tuple-of-boxed-ops tables (with a boxed atom) agree; check() agrees with parse(). Tables declaring one symbol both postfix and infix are counted and skipped (unspecified). Exhaustive within the bounds in the evidence file.",
+            "Trusted: the reference binding-power loop in engines/pratt (independent of chumsky), rustc.", "DESIGN.md section 4, C09"),
+    "C11": ("e1-conformance", E1T + "; differential pairs (memoized vs plain) need no model",
+            "(i) Differential: every core-class grammar (<= 3 nodes), every focused memo-class grammar (<= 5 nodes, multi-token leaves, repetition, choice) x EVERY non-empty subset of nodes wrapped in memoized(), and extended/K02 grammars with single/adjacent/all nodes memoized, give exactly the same outputs and complete error lists (parse and check) as the plain grammar on every input. (ii) Five left-recursive families whose recursive step is memoized (direct, through a repetition, indirect via declare/define) return a ParseResult on every string over {x,+,?} up to the bound; a stack overflow or hang kills the worker and is attributed to the case. Every node is boxed here; the statically typed form (address-keyed memo table) is a stated gap until the static engine lands.",
+            NOTE, "DESIGN.md section 4, C11"),
+    "C12": ("e4-histories", "bounded exhaustive enumeration of inputs per recursive template and of life-cycle operation histories; native-recursion reference recognisers",
+            "Four guarded recursive templates (bracket nesting, right recursion, nested lists with separators, two mutually recursive rules), each built with recursive(), with Recursive::declare/define and through clones whose originals were dropped, on every string up to the length bound over the template's alphabet: output, check() and complete error lists equal the native-recursion (= unrolled) reference and each other. Every history of <= 4 operations clone/boxed/drop/parse over <= 4 handles gives each parse the result of a fresh parser. Nesting depth points up to 10^6 (recursive(), declare/define, Pratt prefix and right-infix) parse and check without overflow, well- and ill-nested (points, not an enumeration). A second define() (direct, via a clone, after a parse) panics naming the definition site.",
+            "Trusted: the reference recognisers in engines/rec, rustc; the default stacker feature is on in the harness build.", "DESIGN.md section 4, C12"),
+    "C13": ("e1-conformance", E1T + "; parsers built through Clone at every node; differential plain-vs-clone pairs",
+            "Every combinator value of every K01, extended and K02-template grammar is cloned once, the original dropped, and the clone used (each combinator's own Clone impl, not Boxed's Rc clone): results equal the reference model's, and (differential) equal the plainly built parser's outputs and complete error lists on every input. Reuse across inputs in arbitrary order is exercised by every E1 unit (one parser value parses all inputs of its unit, twice: parse then check). Sharing between threads is not yet covered (stated gap until the schedule engine lands).",
+            NOTE, "DESIGN.md section 4, C13"),
+    "C14": ("text", "bounded exhaustive enumeration of all strings over a 19-character alphabet; independent longest-prefix recognisers",
+            "Every string of length <= 4 (thorough 5) over {0 1 9 a f g Z _ space tab CR LF VT FF é ٣ - U+0085 U+2028}: int(r), digits(r) for r in {2,8,10,16,36}, ascii::ident, unicode::ident, ascii/unicode keyword (5 keywords), whitespace (also at_least(1)), inline_whitespace, newline, padded, on &str and (ASCII strings) on &[u8], plus 12 regex patterns at offsets 0 and 1: the matched prefix equals the documented language's longest prefix (std predicates, unicode-ident, the regex crate), &str and &[u8] agree, the parser's own output slice and to_slice() are the same sub-slice of the input, check() agrees with parse().",
+            "Trusted: std char predicates, unicode-ident, regex crate, rustc.", "DESIGN.md section 4, C14"),
+    "C16": ("nested", "bounded exhaustive enumeration of grammars x token trees; recursive reference model",
+            "Every grammar of <= 5 nodes over just/any/end/empty/then/or/or_not/repeated/validate/nested_in on every token tree of <= 5 tokens (nesting depth <= 2; and <= 4 nodes on depth <= 4) with gapped spans through Input::map: the inner grammar must match its token list completely, the outer input advances by one group token, outputs with every node's span, the complete error list on success (inner emissions surfaced), the complete list on failure for backtracking-free grammars and the primary error otherwise equal the recursive reference model's; check() == parse().",
+            "Trusted: the reference evaluator in engines/nested, rustc.", "DESIGN.md section 4, C16"),
+    "C19": ("drops", "bounded exhaustive enumeration of grammars x inputs with registry-tracked outputs and tokens (direct invariant, no model)",
+            "Every K01, extended (recovery) and K02-sink grammar and a focused fixed-size-collection class (group arrays/tuples, collect_exactly, separated_by into arrays, failing at every position) on every input over a 3-letter alphabet, on &[tracked token], parse and check: while the result is held exactly the values reachable from the returned output are live, after it is dropped none are, no value or token is dropped twice, token clones are balanced.",
+            "Trusted: the registry in engines/drops (thread-local sets keyed by serial numbers), rustc.", "DESIGN.md section 4, C19"),
+})
+
+NOT_YET.update({
+})
+
 def main():
     props = [json.loads(l) for l in open(os.path.join(ROOT, "properties.jsonl"))]
     checks = []
@@ -54,9 +82,11 @@ def main():
     for name, path, txt in [
         ("e2-cursor-machine", "harness/src/e2.rs", "explicit-state BFS over the input-cursor machine; every edge replayed on the real InputRef"),
         ("e3-schedules", "harness/src/e3.rs", "shuttle DFS over all interleavings of threads sharing one parser, token pulls as scheduling points"),
-        ("e4-histories", "harness/src/e4.rs", "all operation histories up to a length over handles x inputs, differential against a fresh parser"),
-        ("pratt", "harness/src/pratt.rs", "all operator tables x all token strings against a textbook binding-power reference"),
-        ("text", "harness/src/text.rs", "all strings over a small alphabet against independent recognisers"),
+        ("e4-histories", "engines/rec/src/lib.rs", "all operation histories up to a length over handles x inputs, differential against a fresh parser"),
+        ("pratt", "engines/pratt/src/lib.rs", "all operator tables x all token strings against a textbook binding-power reference"),
+        ("text", "engines/text/src/lib.rs", "all strings over a small alphabet against independent recognisers"),
+        ("nested", "engines/nested/src/lib.rs", "grammars x token trees with gapped spans against a recursive reference model"),
+        ("drops", "engines/drops/src/lib.rs", "grammars x inputs with registry-tracked outputs and tokens; direct drop-discipline invariant"),
     ]:
         served = sorted(k for k, v in CLAIMED.items() if v[0] == name)
         if served:
